@@ -15,12 +15,13 @@
 #include <vector>
 extern "C" int gettimeofday(struct timeval *tv, void *) { if (tv) { tv->tv_sec = 1700000000; tv->tv_usec = 123456; } return 0; }
 using namespace tbox::log;
+static const char LEVEL_CODE[] = "FEWNIIDT";     // the documented level codes, spelled out (not read from the implementation's table)
 
 namespace {
 struct SyncRec : Sink {            // synchronous recorder: formats like the in-tree sync sink
   std::vector<std::string> lines;
   void onLogFrontEnd(const LogContent *c) override {
-    char b[512]; int n = snprintf(b, sizeof b, "%c %u.%06u %ld %s %s() %.*s%s-- %s:%d", LOG_LEVEL_LEVEL_CODE[c->level], c->timestamp.sec, c->timestamp.usec, c->thread_id, c->module_id, c->func_name, (int)c->text_len, c->text_ptr, c->text_len ? " " : "", c->file_name, c->line);
+    char b[512]; int n = snprintf(b, sizeof b, "%c %u.%06u %ld %s %s() %.*s%s-- %s:%d", LEVEL_CODE[c->level], c->timestamp.sec, c->timestamp.usec, c->thread_id, c->module_id, c->func_name, (int)c->text_len, c->text_ptr, c->text_len ? " " : "", c->file_name, c->line);
     lines.emplace_back(b, (size_t)n); }
 };
 struct AsyncRec : AsyncSink {      // asynchronous recorder on the real pipe + real back-end formatter
@@ -37,10 +38,10 @@ void do_log(int thr, int idx, int seq = -1) {
   static const char *FN[3][2] = {{"fn00", "fn01"}, {"fn10", "fn11"}, {"fn20", "fn21"}};   // like __func__: static storage (the async back-end reads the pointer later)
   const char *fn = FN[thr][idx]; int line = 100 + thr * 10 + seq; int level = (thr + idx) % 2 ? LOG_LEVEL_INFO : LOG_LEVEL_WARN;
   g_tid[thr] = syscall(SYS_gettid);
-  char ts[32]; { time_t t = 1700000000; struct tm tm; localtime_r(&t, &tm); strftime(ts, sizeof ts, "%F %H:%M:%S", &tm); }
+  char ts[32]; { time_t t = 1700000000 + 19800; struct tm tm; gmtime_r(&t, &tm); strftime(ts, sizeof ts, "%F %H:%M:%S", &tm); }    // zone VFT-05:30 (set in main): local = UTC + 5 h 30 min, computed without localtime_r
   char b[512]; Expect e;
-  snprintf(b, sizeof b, "%c %u.%06u %ld %s %s() %s -- %s:%d", LOG_LEVEL_LEVEL_CODE[level], 1700000000u, 123456u, g_tid[thr], "modX", fn, payload, "file.cpp", line); e.sync_line = b;
-  snprintf(b, sizeof b, "%c %s.%06u %ld %s %s() %s -- %s:%d\n", LOG_LEVEL_LEVEL_CODE[level], ts, 123456u, g_tid[thr], "modX", fn, payload, "file.cpp", line); e.async_line = b;
+  snprintf(b, sizeof b, "%c %u.%06u %ld %s %s() %s -- %s:%d", LEVEL_CODE[level], 1700000000u, 123456u, g_tid[thr], "modX", fn, payload, "file.cpp", line); e.sync_line = b;
+  snprintf(b, sizeof b, "%c %s.%06u %ld %s %s() %s -- %s:%d\n", LEVEL_CODE[level], ts, 123456u, g_tid[thr], "modX", fn, payload, "file.cpp", line); e.async_line = b;
   g_exp[thr].push_back(e);
   if (idx % 2) LogPrintfFunc("modX", fn, "/some/dir/file.cpp", line, level, 0, payload);          // LogPuts path
   else LogPrintfFunc("modX", fn, "/some/dir/file.cpp", line, level, 1, "payload-t%d-n%d-%s", thr, seq, idx ? "zz" : "a");   // formatted path
@@ -119,6 +120,7 @@ void scenario(int scen, int buff) {
 }  // namespace
 
 int main(int argc, char **argv) {
+  setenv("TZ", "VFT-05:30", 1); tzset();       // a zone that is not UTC, so that a back-end formatting gmtime instead of local time disagrees with the oracle
   int scen = argc > 1 ? atoi(argv[1]) : 0, buff = argc > 2 ? atoi(argv[2]) : 48, bound = argc > 3 ? atoi(argv[3]) : 1;
   sx::Explorer ex; char nm[64]; snprintf(nm, sizeof nm, "log-scen%d-buf%d", scen, buff); ex.name = nm;
   ex.body = [=] { scenario(scen, buff); };
